@@ -68,6 +68,11 @@ def transform(text):
     text = re.sub(r'\bstd::sync::(Mutex|MutexGuard|RwLock|RwLockReadGuard|RwLockWriteGuard|Condvar|Barrier|mpsc|Once)\b', r'shuttle::sync::\1', text)
     text = re.sub(r'\bstd::thread\b', 'shuttle::thread', text)
     text = re.sub(r'\b(?:std|core)::hint::spin_loop\b', 'shuttle::hint::spin_loop', text)
+    if not STD_TLS:
+        # per-thread storage of the simulated threads (shuttle runs all of them on one OS thread, where std's
+        # thread_local! would be one shared slot that is never torn down); shuttle's LocalKey only has with/try_with,
+        # so tools/c16.sh falls back to --std-tls when the crate uses more of LocalKey's API than that
+        text = re.sub(r'(?<![\w:])(?:std::)?thread_local!', 'shuttle::thread_local!', text)
     return text
 
 # files whose loops get a `sched_tick()` at the top of the body (not the per-byte kernels)
@@ -82,6 +87,8 @@ def add_ticks(text):
             indent = re.match(r'^(\s*)', line).group(1)
             out.append(indent + '    crate::verif::sched_tick();')
     return '\n'.join(out)
+
+STD_TLS = '--std-tls' in sys.argv
 
 def main():
     changed = 0
